@@ -41,6 +41,14 @@ impl<T: PartialEq + Eq + Hash> AvailableValueMap<T> {
         self.map.insert(key, value);
     }
 
+    pub fn remove(&mut self, key: &T) -> Option<AvailableValue> {
+        self.map.remove(key)
+    }
+
+    pub fn retain<F: FnMut(&T, &mut AvailableValue) -> bool>(&mut self, f: F) {
+        self.map.retain(f);
+    }
+
     /// Check if the available value map is empty.
     #[must_use]
     pub fn is_empty(&self) -> bool {
